@@ -23,6 +23,13 @@ Record case := mk {
   clookups_ok : bool            (* KBig: every lookup equals the Go-side oracle *)
 }.
 
+(* compact notation used by the glue (lib/props/c16.py) for long byte runs and for the
+   2048-byte header of a file: [rp n c] = n copies of byte c; [hdr l] = the header whose
+   (position, slots) pairs are given run-length encoded as (count, (position, slots)) *)
+Definition rp (n c : N) : bytes := repeat c (N.to_nat n).
+Definition hdr (l : list (N * (N * N))) : bytes :=
+  flat_map (fun x => concat (repeat (u32le (fst (snd x)) ++ u32le (snd (snd x))) (N.to_nat (fst x)))) l.
+
 Definition hash_of (tbl : list (N * bytes)) (k : bytes) : N :=
   match List.find (fun e => bytes_eqb k (snd e)) tbl with Some e => fst e | None => 0 end.
 
